@@ -185,7 +185,8 @@ def law_datetime(real):
     """Date/Time/DateTime for well-formed values: correspondence only (DESIGN §8 C10, partial)."""
     bad = []
     n = 0
-    samples = [datetime(2019, 12, 31, 12, 30, 1), datetime(2000, 2, 29, 0, 0, 0), datetime(1999, 1, 1, 23, 59, 59), datetime(2024, 7, 4, 6, 5, 4)]
+    samples = [datetime(2019, 12, 31, 12, 30, 1), datetime(2000, 2, 29, 0, 0, 0), datetime(1999, 1, 1, 23, 59, 59), datetime(2024, 7, 4, 6, 5, 4),
+               datetime(999, 12, 31, 1, 2, 3), datetime(1, 1, 1, 0, 0, 0), datetime(9999, 12, 31, 23, 59, 59)]      # years that need zero padding / the extremes
     for name, fmt in (("Date", "%Y-%m-%d"), ("Time", "%H:%M:%S"), ("DateTime", "%Y-%m-%dT%H:%M:%S")):
         sc = real[name]
         for dt in samples:
